@@ -597,6 +597,19 @@ func c19Targets() []c19Target {
 				e2 := h2c.ExpandMessageXMD(out, crypto.SHA512, prev, b)
 				_, _ = e1, e2 // which lengths are refused is C14's business; C19: it returns
 			}
+			// other hash functions: too short a digest is an error, any other block / digest size just works
+			for _, hf := range []crypto.Hash{crypto.SHA1, crypto.SHA224, crypto.SHA384, crypto.SHA512_224, crypto.SHA512_256, crypto.SHA3_256, crypto.SHA3_512} {
+				if !hf.Available() {
+					continue
+				}
+				for _, n := range []int{1, hf.Size(), hf.Size() + 1, 255 * hf.Size(), 255*hf.Size() + 1} {
+					out := make([]byte, n)
+					err := h2c.ExpandMessageXMD(out, hf, b, prev)
+					if (hf.Size() < 32 || n > 255*hf.Size()) && err == nil {
+						return c19Res{bad: fmt.Sprintf("ExpandMessageXMD(%v, %d bytes) returned no error (digest too short for k=128, or more than 255 blocks)", hf, n)}
+					}
+				}
+			}
 			_, _ = h2c.Edwards25519_XMD_SHA512_ELL2_RO(b, prev)
 			return c19Res{ok: ok}
 		}})
